@@ -126,7 +126,9 @@ def check_case(case, ctx):
         detectable = case["marker"] or (case["size_ok"] and not case["trailing"])
         fh = io.BytesIO(enc)
         try:
-            xf = xordecode.XorEncodedFile.from_file(fh)
+            # maxrange bounds the search for the nonce offset only ("how far into the file ... nonce_offset candidates"):
+            # any value that covers the stub must give the same result as the default, whatever the image's e_lfanew is
+            xf = xordecode.XorEncodedFile.from_file(fh) if not case.get("maxrange") else xordecode.XorEncodedFile.from_file(fh, maxrange=off + case["maxrange"])
         except ValueError:
             xf = None
         except Exception as e:  # noqa: BLE001
@@ -159,7 +161,7 @@ def check_case(case, ctx):
                 return
         ctx.ok(fp=enc, case={k: v for k, v in case.items() if k != "plain"} | {"plain_len": len(plain)}, classes=(
             f"detect:marker={case['marker']},size={case['size_ok'] and not case['trailing']}", f"prepend:{min(case['prepend'] // 300, 3)}",
-            "stub:decoy-markers" if stub.count(b"\xff\xff\xff") else "stub:clean"))
+            "stub:decoy-markers" if stub.count(b"\xff\xff\xff") else "stub:clean", f"maxrange:{'default' if not case.get('maxrange') else 'stub+' + str(case['maxrange'])}"))
     elif case["op"] == "plainfile":
         ctx.mon("detect.reject")
         try:
@@ -293,7 +295,8 @@ def run_shard(shard, ctx):
                 b[pos : pos + 3] = b"\xff\xff\xff"
                 stub = bytes(b)
             check_case({"op": "detect", "plain": plain, "nonce": rng.randbytes(4), "stub": stub, "marker": marker,
-                        "size_ok": size_ok, "trailing": trailing, "prepend": prepend}, ctx)
+                        "size_ok": size_ok, "trailing": trailing, "prepend": prepend,
+                        "maxrange": rng.choice([0, 0, 1, 8, 100, 2000]) if (marker or (size_ok and not trailing)) else 0}, ctx)
     elif kind == "plain":
         for i in range(shard["n"]):
             if ctx.out_of_time():
